@@ -169,6 +169,46 @@ def savgol_check(case):
     return Res(list(seen.items()), o=case, tr=ntr)
 
 
+def lattice_cases(tier, seed):
+    return [(window, order, rep) for window in (5, 7, 11) for order in (1, 2, 3) for rep in range(6)]
+
+
+def lattice_check(case):
+    window, order, rep = case
+    rng = _rng(7, window, order, rep)
+    seen = {}
+    ntr = 0
+    # integer time stamps with missing samples: consecutive windows can share their end offsets while differing inside
+    n = 70
+    keep = np.ones(n, dtype=bool)
+    holes = rng.choice(np.arange(3, n - 3), size=12 + 3 * rep, replace=False)
+    keep[holes] = False
+    if rep == 0:
+        keep[:] = True
+        keep[[10, 12, 14, 16, 21, 23, 30, 31, 40, 42]] = False
+    xs = np.arange(n)[keep].astype(float)
+    for deg in range(0, order + 1):
+        coef = rng.standard_normal(deg + 1)
+        y = np.polyval(coef, (xs - 35) / 10.0)
+        out = smooth.non_uniform_savgol(xs, y, window, order)
+        ntr += 1
+        err = np.max(np.abs(out - y)) / (np.max(np.abs(y)) + 1.0)
+        if not err < 1e-6:
+            seen.setdefault("savgol:polynomial:lattice", "window %d order %d: a degree-%d polynomial sampled at integer time stamps with gaps is reproduced with relative error %.3g"
+                            % (window, order, deg, err))
+    # through the NaN-filling wrapper: a cubic with NaN gaps comes back as the cubic
+    t = np.arange(n).astype(float)
+    cub = np.polyval([0.3, -1.0, 0.5, 2.0], (t - 35) / 20.0)
+    sig = cub.copy()
+    sig[~keep] = np.nan
+    out = smooth.smooth_interpolate_savgol(sig.copy(), window=window if window >= 5 else 5, order=min(order, 3), interp_kind="cubic")
+    ntr += 1
+    if order >= 3 and (not np.all(np.isfinite(out)) or np.max(np.abs(out[keep] - cub[keep])) > 1e-6):
+        seen.setdefault("savgol:nan-wrapper:polynomial", "window %d order %d: a cubic with NaN gaps is not reproduced at the valid samples (max error %.3g)"
+                        % (window, order, float(np.max(np.abs(out[keep] - cub[keep])))))
+    return Res(list(seen.items()), o=(window, order), tr=ntr)
+
+
 def nan_cases(tier, seed):
     n = 40
     pats = [()] + [(i,) for i in range(n)] + list(itertools.combinations(range(n), 2))
@@ -308,6 +348,7 @@ CHECK = {
         Clause("rank", "cadzow / SVD denoising at sufficient rank on every layout", cases=rank_cases, check=rank_check, setup=_setup),
         Clause("constants", "lp and rolling_window on constants of every length", cases=const_cases, check=const_check, setup=_setup),
         Clause("savgol", "non_uniform_savgol reproduces polynomials up to its order", cases=savgol_cases, check=savgol_check, setup=_setup),
+        Clause("savgol-lattice", "polynomials on integer time stamps with gaps (as produced by NaN removal)", cases=lattice_cases, check=lattice_check, setup=_setup),
         Clause("nan-fill", "smooth_interpolate_savgol fills every NaN pattern", cases=nan_cases, check=nan_check),
         Clause("venn", "spike coincidence counting conserves spikes for every small train and chunking", cases=venn_cases, check=venn_check),
         Clause("stack", "stack by label for every label vector", cases=stack_cases, check=stack_check, setup=_setup),
